@@ -426,3 +426,6 @@ def run(ctx) -> None:
     for name, fn in (("H9", rule_H9), ("H10", rule_H10), ("H8", rule_H8), ("H7", rule_H7), ("H1", rule_H1), ("H2", rule_H2), ("H3", rule_H3), ("H4", rule_H4), ("H5", rule_H5), ("H6", rule_H6), ("T2", codec.rule_T2), ("T2b", codec.rule_T2b)):
         ctx.rules_run.append(name)
         fn(ctx)
+    from . import jsonrules
+    ctx.rules_run.append("J8")
+    jsonrules.rule_J8(ctx)      # a number without a member keeps its number in the dict / JSON form (the name of such a value is None)
